@@ -265,6 +265,52 @@ func (k c05) vectors(c *rt.Ctx) {
 // sortKeys: a sort key that is an element of a named list, and a sort key whose name a later field
 // announces again (uses of a name mean the FIRST field of that name - the rule the duplicate
 // columns above rest on - so giving the later field another name changes no row).
+// namesInLists (wave 15, C05-aa): a field name as a bare element of an IN list means its
+// definition there as everywhere else - the named and the expanded statement are both accepted
+// and agree (register B12 dates from before repair 6d03155, since which the checker resolves
+// names inside lists).
+func (k c05) namesInLists(c *rt.Ctx) {
+	r := c.R
+	var ps []refstore.Pair
+	for i, n := 0, r.Range(4, 30); i < n; i++ {
+		key := fmt.Sprintf("k%02d", i)
+		v := []string{strings.ToUpper(key), key, "x", fmt.Sprint(i % 5), "3"}[r.Intn(5)]
+		ps = append(ps, refstore.Pair{K: key, V: v})
+	}
+	ps = refstore.New(ps).Pairs()
+	udef, ldef := gen.Call("upper", gen.Key()), gen.Call("lower", gen.Value())
+	ndef, idef := gen.Call("strlen", gen.Key()), gen.Call("strlen", gen.Value())
+	u, lv := func() *gen.Node { return gen.Ref("u", udef) }, func() *gen.Node { return gen.Ref("lv", ldef) }
+	n, iv := func() *gen.Node { return gen.Ref("n", ndef) }, func() *gen.Node { return gen.Ref("iv", idef) }
+	var stmt *gen.Stmt
+	switch (c.Case / 25) % 4 {
+	case 0:
+		stmt = &gen.Stmt{Kind: "select", Fields: []gen.Field{{E: gen.Key()}, {E: udef, Alias: "u"}}, Where: gen.In(gen.Value(), u())}
+	case 1:
+		stmt = &gen.Stmt{Kind: "select", Fields: []gen.Field{{E: gen.Key()}, {E: udef, Alias: "u"}, {E: ldef, Alias: "lv"}}, Where: gen.In(gen.Key(), gen.Str("x"), lv(), u())}
+	case 2:
+		stmt = &gen.Stmt{Kind: "select", Fields: []gen.Field{{E: gen.Key()}, {E: ndef, Alias: "n"}, {E: idef, Alias: "iv"}}, Where: gen.In(n(), iv(), gen.Int(1))}
+	default:
+		stmt = &gen.Stmt{Kind: "select", Fields: []gen.Field{{E: udef, Alias: "u"}, {E: gen.Call("count", gen.Int(1)), Alias: "c"}}, Where: gen.And(gen.Bin("^=", gen.Key(), gen.Str("k")), gen.In(gen.Value(), gen.Str("3"), u())), GroupBy: []string{"u"}}
+	}
+	c.Rec.Inc("names_as_bare_items_of_in_lists")
+	// for these shapes acceptance itself is judged: the statement with the names written out is
+	// accepted, so the abbreviated one is too (elsewhere one-sided acceptance is only tallied)
+	size := []int{1, 2, 3, 5, 32}[c.Case%5]
+	an := drive.Run(stmt.Text(gen.Plain), refstore.New(ps), drive.Mode{Size: size, Cache: true})
+	ex := drive.Run(stmt.TextExpanded(gen.Plain), refstore.New(ps), drive.Mode{Size: size, Cache: true})
+	c.Rec.Eval(2)
+	if an.PlanErr != nil && ex.PlanErr == nil {
+		c.Violation("named-text-refused-although-its-expansion-is-accepted", "name as a bare item of an IN list / "+firstWords(an.PlanErr.Error()), func() rt.D {
+			return rt.D{"named": stmt.Text(gen.Plain), "expanded": stmt.TextExpanded(gen.Plain), "error": an.PlanErr.Error()}
+		})
+		return
+	}
+	if hit := k.judge(c, stmt, ps, ""); hit != "" {
+		k.judge(c, stmt, ps, stmt.Text(gen.Plain))
+	}
+}
+
 func (k c05) sortKeys(c *rt.Ctx) {
 	r := c.R
 	var ps []refstore.Pair
@@ -338,6 +384,10 @@ func (k c05) Run(c *rt.Ctx) {
 	r := c.R
 	if c.Case%25 == 9 {
 		k.sortKeys(c)
+		return
+	}
+	if c.Case%25 == 17 {
+		k.namesInLists(c)
 		return
 	}
 	if r.Chance(1, 12) {
